@@ -904,3 +904,29 @@ pub fn encodable(d: &Desc, id: &str) -> bool {
     ok_type(d, id, 0)
 }
 
+
+/// Statistics used to size the compiled tiers.
+pub fn print_supported(tier: Tier) {
+    use pdlmc_core::support::{unsupported, Lang};
+    let e = explore(tier);
+    let mut m: BTreeMap<(String, usize), [usize; 6]> = BTreeMap::new();
+    for s in &e.states {
+        let ent = m.entry((s.family.to_string(), s.depth)).or_insert([0; 6]);
+        ent[0] += 1;
+        if !rules::rules(&s.desc).is_empty() || rules::unspecified(&s.desc).is_some() {
+            continue;
+        }
+        ent[1] += 1;
+        if let Some(inl) = rules::inline_groups(&s.desc) {
+            for (i, l) in [Lang::Rust, Lang::Python, Lang::Cxx, Lang::Java].iter().enumerate() {
+                if unsupported(*l, &inl).is_none() {
+                    ent[2 + i] += 1;
+                }
+            }
+        }
+    }
+    println!("family depth states wf rust python cxx java");
+    for ((f, d), v) in m {
+        println!("{f} {d} {} {} {} {} {} {}", v[0], v[1], v[2], v[3], v[4], v[5]);
+    }
+}
